@@ -833,6 +833,11 @@ type loStream struct {
 }
 
 func (s *loStream) Send(r *openfgav1.StreamedListObjectsResponse) error {
+	// like a real gRPC server stream: once the client's context is done (it cancelled or its deadline
+	// passed) sending fails — the handler must then wind down without leaving goroutines behind
+	if err := s.ctx.Err(); err != nil {
+		return status.FromContextError(err).Err()
+	}
 	s.mu.Lock()
 	s.items = append(s.items, r.GetObject())
 	s.mu.Unlock()
